@@ -22,7 +22,7 @@ def run(ctx):
     ok = ctx.audit(['Scalibr.Properties.C10'], THEOREMS)
     if ctx.tier == 'thorough':
         ok = ctx.leanchecker('Scalibr.Properties.C10') and ok
-    n = {'quick': 8000, 'thorough': 200000}[ctx.tier]
+    n = {'quick': 8000, 'thorough': 200000}[ctx.tier] * W.scale(ctx)
 
     def kv(case):
         return dict(x.split('=') for x in case.split(' ')[1].split(','))
